@@ -10,6 +10,7 @@ int  vp_co_spawn(void (*fn)(void *), void *arg, const char *name);
 int  vp_co_run(void);                                        /* run to completion; 0 ok, 1 execution cut (state merged / pruned) */
 int  vp_co_self(void);                                       /* -1 outside coroutines */
 int  vp_co_done(int id);
+int  vp_co_others_idle(void);                                /* every other coroutine is blocked or finished */
 const char *vp_co_name(int id);
 void vp_point(const char *tag);                              /* scheduling point */
 void vp_yield_free(const char *tag);                         /* voluntary yield: switching costs nothing */
